@@ -13,7 +13,9 @@ LEVEL = "exploration"
 RULE = (
     "cases = generated interface description x kind in {rest,numpydoc,google,class,function,method,argparse} x emitter "
     "options; t1 = emit(ir), t(n+1) = emit(parse(t(n))) with the same options; oracle: t2 == t3 byte for byte, and no "
-    "exception in pass 2 or 3 after a successful pass 1 (a failing pass 1 is the business of C01-C04 and only counted). A "
+    "exception in pass 2 or 3 after a successful pass 1 (a failing pass 1 is the business of C01-C04 and only counted); "
+    "separate phases: entries longer than the width with word_wrap on (every kind), and - for function and method - a "
+    "return entry whose default is a number or bool, falsy ones included (the carried-over body must not repeat its return). A "
     "failing pass is attributed by the shape of the description that ENTERED it (the normalised one), DESIGN.md section 5. "
     "distinct = canonical-JSON hash; non-trivial = >=1 default, prose not ending in a full stop, and a return entry - or "
     ">=3 parameters with >=1 default"
@@ -28,6 +30,11 @@ for _k in kinds.KINDS:
             _F.append("%s|%s" % (_k, _knob))
 # wrapping: prose / summary / type longer than the width, word_wrap on (C18 judges the meaning, here only the fixed point)
 WRAP_KNOBS = tuple("%s|wrap_long" % k for k in kinds.KINDS)
+# a return entry whose default is a plain number or bool (the falsy ones included): the function kinds carry the body of
+# the parsed function into the next emission and must replace, not repeat, its `return` statement
+SCALAR_RETURN_KNOBS = ("function|scalar_return", "method|scalar_return")
+SCALAR_RETURNS = (("int", "```0```"), ("int", "```7```"), ("int", "```-1```"), ("bool", "```False```"), ("bool", "```True```"),
+                  ("float", "```0.0```"), ("float", "```1.5```"))
 FRONTIER_KNOBS = tuple(_F)
 FLOORS = {"kind=class": 0.03, "kind=argparse": 0.03, "kind=numpydoc": 0.03, "kind=google": 0.03, "kind=rest": 0.03,
           "kind=function": 0.03, "kind=method": 0.03}
@@ -50,6 +57,9 @@ def extra_phases(coll, tier, seed_value, shard, nshards):
     n = 60 if tier == "quick" else 16 * 400 // nshards
     for i, knob in enumerate(WRAP_KNOBS):
         hyp_survey(mod(), coll, "frontier", knob, n, (seed_value + 104729 * (i + 1)) % (2 ** 32))
+    m = 40 if tier == "quick" else 16 * 300 // nshards
+    for i, knob in enumerate(SCALAR_RETURN_KNOBS):
+        hyp_survey(mod(), coll, "frontier", knob, m, (seed_value + 15485863 * (i + 1)) % (2 ** 32))
 
 
 def _kind_strategy(kind, mode, knob):
@@ -67,6 +77,13 @@ def strategy(mode, knob=None):
         if k == "wrap_long":
             return st.sampled_from(("long_prose", "long_prose", "long_summary", "long_type")).flatmap(
                 lambda lk: _kind_strategy(kind, mode, lk)).map(lambda c: dict(c, opts=dict(c["opts"], word_wrap=True)))
+        if k == "scalar_return":
+            def _with_return(c, td):
+                r = dict(c["ir"].get("returns") or {})
+                c["ir"]["returns"] = {"typ": td[0], "doc": r.get("doc") or "the outcome", "default": td[1]}
+                return c
+
+            return st.builds(_with_return, _kind_strategy(kind, "core", None), st.sampled_from(SCALAR_RETURNS))
         return _kind_strategy(kind, mode, k)
     return st.sampled_from(kinds.KINDS).flatmap(lambda kind: _kind_strategy(kind, "core", None))
 
